@@ -243,7 +243,7 @@ let render_cfg (c : trippyConfig) pid =
     "log_filter", hex c.tc_log_filter;
     "log_span_events", zs c.tc_log_span_events;
     "max_flows_eff", zs (trippyConfig_max_flows c);
-    "builder", (if builder_accepts (start_tracer_cfg c [z_of_int 10; Z0; Z0; z_of_int 1] pid) then "ok" else "bad");
+    "builder", (if builder_accepts_src (start_tracer_cfg c [z_of_int 10; Z0; Z0; z_of_int 1] pid) c.tc_source_addr then "ok" else "bad");
   ] in
   "ok " ^ String.concat " " (List.map (fun (k, v) -> k ^ "=" ^ v) f)
 
@@ -283,6 +283,10 @@ let run_case (toks : string list) : string option =
     Some (match build_config (fun s -> List.mem s valid) a f p (zi pid) with
           | COk c -> render_cfg c (zi pid)
           | CErr e -> "err:" ^ err_kind e)
+  | "e2efam" :: cfg :: src :: _ ->
+    (* the builder with an explicit source address (hex octets) *)
+    let c = parse_scfg cfg in
+    Some (if builder_accepts_src c (Some (unhex src)) then "accept" else "reject")
   | "e2e" :: cfg :: _
   | "c16grid" :: cfg :: _ ->
     let c = parse_scfg cfg in
